@@ -84,6 +84,8 @@
 //	holepunch-coordinated-without-relayed-conn        StartHolePunch on a node that never had a relayed connection to the peer
 //	holepunch-success-without-direct-conn             EndHolePunch(success) with no direct connection open during the attempt
 //	force-direct-success-with-dead-conn/<api>         force-direct DialPeer / Host.Connect succeeded on a connection the node's own gater had refused
+//	force-direct-returned-stale-closed-conn/Swarm.DialPeer  force-direct DialPeer returned a connection whose Disconnected notification preceded the call
+//	                                                  (fires on the unchanged tree: a request joining a live dial worker gets the cached trackedDials conn; reported to the lead)
 //	waiter-woken-without-direct-conn                  ErrLimitedConn where every direct connection admitted during the call had been refused by A's gater
 //	direct-dial-success-without-direct-conn           DirectDial(success) likewise
 //
